@@ -230,10 +230,12 @@ func macroexpand(ctx context.Context, ast MalType, env EnvType) (MalType, error)
 			return nil, e
 		}
 		fn := mac.(MalFunc)
+		call := ast
 		callCursor := ast.(List).Cursor
 		ast, e = Apply(ctx, fn, slc[1:])
 		if e != nil {
-			return nil, e
+			// an expansion that fails (e.g. too few operands) is reported at the macro call
+			return nil, lisperror.NewLispError(e, call)
 		}
 		// code generated by a macro is reported at the macro call
 		ast = positionGenerated(ast, callCursor)
